@@ -646,6 +646,33 @@ class Body:
                 stack.append(k)
         return blocks
 
+    def edges_between(self, start_bb, removed_edges=(), removed_blocks=()):
+        """CFG edges (b, j) traversed by some path from start_bb that avoids the given edges / blocks."""
+        removed_edges = set(removed_edges)
+        removed_blocks = set(removed_blocks)
+        out = set()
+        if not self.ps:
+            for b in self.reach_between(start_bb, removed_edges, removed_blocks):
+                for j, (tb, _) in enumerate(self.succ[b]):
+                    if (b, j) not in removed_edges and tb not in removed_blocks:
+                        out.add((b, j))
+            return out
+        x = self._x
+        order, adj = x["order"], x["adj"]
+        starts = [i for i, (b, _st) in enumerate(order) if b == start_bb]
+        seen = set(starts)
+        stack = list(starts)
+        while stack:
+            i = stack.pop()
+            for (k, e) in adj[i]:
+                if e in removed_edges or order[k][0] in removed_blocks:
+                    continue
+                out.add(e)
+                if k not in seen:
+                    seen.add(k)
+                    stack.append(k)
+        return out
+
     def is_return_tail(self, tb):
         """Every path from tb to Return is free of calls and of assignments to the return place."""
         c = getattr(self, "_tail_cache", None)
@@ -715,20 +742,31 @@ class Body:
             for j, (tb, lab) in enumerate(self.succ[b]):
                 if tb in loop or (b, j) in exh:
                     continue
-                if not self._is_err_return_path(b, tb, loop):
+                if not self._is_err_return_path(b, tb, loop, j):
                     out.append((b, j))
         return out
 
-    def _is_err_return_path(self, src, start, loop):
+    def _is_err_return_path(self, src, start, loop, j=None):
         ret = self.blocks[src].get("ret_local", 0)
         inst = self.blocks[src].get("inst", "")
         seen = set()
-        stack = [start]
+        xg = self._x if (self.ps and j is not None) else None
+        if xg is not None:
+            # path-sensitive: walk the exploded graph from the nodes entered over this edge
+            order, adj = xg["order"], xg["adj"]
+            stack = [k for i, (b0, _st) in enumerate(order) if b0 == src for (k, e) in adj[i] if e == (src, j)]
+            succs = lambda n: [k for (k, _e) in adj[n]]
+            block_of = lambda n: order[n][0]
+        else:
+            stack = [start]
+            succs = lambda n: [nb for (nb, _) in self.succ[n]]
+            block_of = lambda n: n
         while stack:
-            b = stack.pop()
-            if b in seen:
+            node = stack.pop()
+            if node in seen:
                 continue
-            seen.add(b)
+            seen.add(node)
+            b = block_of(node)
             if b in loop:
                 return False
             blk = self.blocks[b]
@@ -754,8 +792,7 @@ class Body:
                 return False
             if t["k"] == "return" or t.get("synthetic") == "return":
                 return False
-            for (nb, _) in self.succ[b]:
-                stack.append(nb)
+            stack.extend(succs(node))
         return True
 
     def loops(self):
@@ -1083,6 +1120,18 @@ class Body:
                 if neg:
                     truth = not truth
                 out.append((j, ("bool", node, truth)))
+            elif src[0] == "boolmix":
+                mneg, consts, inner = src[1], src[2], src[3]
+                if lab[0] == "sw":
+                    truth = (lab[1] != 0)
+                else:
+                    truth = (0 in {v for v, _ in arms})
+                if mneg:
+                    truth = not truth
+                if truth in consts:
+                    out.append((j, ("unknown",)))
+                else:
+                    out.append((j, ("bool", inner[2], (not truth) if inner[1] else truth)))
             elif src[0] == "int":
                 if lab[0] == "sw":
                     out.append((j, ("int", src[1], lab[1])))
@@ -1103,7 +1152,27 @@ class Body:
         d = self.single_def(l)
         ty = self.local_ty(l)
         if d is None:
-            return ("int", op) if ty != "bool" else ("bool", False, ("opaque", op))
+            if ty != "bool":
+                return ("int", op)
+            # a bool with several definitions, all constants but one (`a && b`, a helper returning `false` early): a value
+            # that no constant definition produces can only come from the remaining definition
+            consts, others = set(), []
+            for dd in self.defs.get(l, []):
+                c2 = op_const(dd.node["rv"]["op"]) if (dd.kind == "assign" and not dd.node["dst"]["p"] and dd.node["rv"]["k"] == "use") else None
+                if c2 is not None and "int" in c2:
+                    consts.add(bool(c2["int"]))
+                else:
+                    others.append(dd)
+            if len(others) == 1 and consts and not (1 <= l <= self.argc) and (others[0].kind == "call" or not others[0].node["dst"]["p"]):
+                inner = self._def_source(others[0], ty, op, depth)
+                if inner[0] == "bool":
+                    return ("boolmix", False, frozenset(consts), inner)
+                if inner[0] == "boolmix" and not inner[1]:
+                    return ("boolmix", False, frozenset(consts) | inner[2], inner[3])
+            return ("bool", False, ("opaque", op))
+        return self._def_source(d, ty, op, depth)
+
+    def _def_source(self, d, ty, op, depth):
         if d.kind == "assign":
             rv = d.node["rv"]
             if rv["k"] == "discr":
@@ -1115,6 +1184,8 @@ class Body:
                 r = self._discr_source(rv["a"], d.bb, depth + 1)
                 if r[0] == "bool":
                     return ("bool", not r[1], r[2])
+                if r[0] == "boolmix":
+                    return ("boolmix", not r[1], r[2], r[3])
                 return ("bool", True, ("opaque", rv["a"]))
             if rv["k"] == "binop" and rv["op"] in ("Lt", "Le", "Gt", "Ge", "Eq", "Ne"):
                 return ("bool", False, ("binop", rv["op"], rv["a"], rv["b"], d.bb))
